@@ -178,14 +178,19 @@ def check_writes(run: Run, scratch: Path, model, table):
             n = len(r["events"])
             for k in range(1, n + 1):
                 jobs.append((r["case"], r["pre"], k, "kill", str(work)))
-                jobs.append((r["case"], r["pre"], k, "fault", str(work)))
+                for v in D.fault_variants(r["events"][k - 1]["role"]):
+                    jobs.append((r["case"], r["pre"], k, "fault", str(work), v))
         results = dry + pool.map(D.execute, jobs, chunksize=2)
     for r in results:
         c = r["case"]
         out = D.outcome(r, newp.get(c))
         stats[r["mode"]] += 1
         if r["mode"] != "dry" and any(e["kind"] == r["mode"] for e in r["events"]):
-            injected.add((c, r["pre"], r["k"], r["mode"]))
+            injected.add((c, r["pre"], r["k"], r["mode"], r["variant"]))
+            if r["variant"]:
+                stats["fault:" + r["variant"]] += 1
+            if sum(e["kind"] == "fault" for e in r["events"]) > 1:
+                stats["persistent_fault_hit_again"] += 1
         if out["how"] == "died":
             ok, broken = False, []
         else:
@@ -198,6 +203,7 @@ def check_writes(run: Run, scratch: Path, model, table):
             "scenario": c.scenario,
             "pre": r["pre"],
             "mode": r["mode"],
+            "fault_variant": r["variant"],
             "boundary": r["k"],
             "boundary_call": next((e["raw"] for e in r["events"] if e["i"] == r["k"]), None),
             "calls_seen": [e["role"] for e in r["events"]],
@@ -207,7 +213,7 @@ def check_writes(run: Run, scratch: Path, model, table):
         }
         if not ok:
             key = finding_key(c, r, out, broken)
-            run.fail(key, detail, what=f"{c.name} {r['mode']} at {detail['boundary_call']}: dest={out['dest']} tmp={out['tmp']} (before: {r['pre']})")
+            run.fail(key, detail, what=f"{c.name} {r['mode']}{'(' + r['variant'] + ')' if r['variant'] else ''} at {detail['boundary_call']}: dest={out['dest']} tmp={out['tmp']} (before: {r['pre']})")
             if c.group:
                 observed_bad[(c.group, r["pre"], out["how"], out["fcall"], out["dest"], D.coarse(out["tmp"]), tuple(broken))] += 1
         if c.group:
@@ -218,11 +224,11 @@ def check_writes(run: Run, scratch: Path, model, table):
             else:
                 tk = json.dumps(tr, sort_keys=True)
                 traces[tk] += 1
-                trace_sample.setdefault(tk, f"{c.name} pre={r['pre']} {r['mode']}@{r['k']}")
+                trace_sample.setdefault(tk, f"{c.name} pre={r['pre']} {r['mode']}@{r['k']} {r['variant'] or ''}")
         else:
             stats["not_transcribed"] += 1
         if r["mode"] != "dry" and c.writer in ("aln", "tree", "table") and r["k"] in (5, 8):
-            run.sample({"call": c.name, "pre": r["pre"], "mode": r["mode"], "at": detail["boundary_call"], "how": out["how"], "dest": out["dest"], "tmp": out["tmp"], "ok": ok}, limit=8)
+            run.sample({"call": c.name, "pre": r["pre"], "mode": r["mode"], "fault": r["variant"], "at": detail["boundary_call"], "how": out["how"], "dest": out["dest"], "tmp": out["tmp"], "ok": ok}, limit=8)
     # ---- code -> spec
     validate_traces(run, scratch, traces, trace_sample, stats)
     # ---- the model's counterexamples must exist in the real code
@@ -290,8 +296,11 @@ def check(run: Run):
     run.cov["rule"] = (
         "write clause: every (writer call, file type, destination present/absent, normal/formatter-failure) case x every "
         "file-system call boundary the real call makes (audit events in the case directory + write/close on the file "
-        "returned by open_) x {kill before the call, call raises OSError}; one evaluation = one child process judged by "
-        "OutcomeOK of AtomicWrite.tla; distinct non-trivial = distinct (case, destination state, boundary index, mode) whose "
+        "returned by open_) x {kill before the call, call raises OSError}.  Fault(c) of the spec (the call raises, handlers run) "
+        "is instantiated per boundary with every error class a file system returns there (path calls: EIO, EACCES=PermissionError, "
+        "ENOENT=FileNotFoundError; write/close: EIO, ENOSPC) x {once, persistent = the same call on the same path fails again "
+        "when it is re-issued by a retry or fallback}; one evaluation = one child process judged by "
+        "OutcomeOK of AtomicWrite.tla; distinct non-trivial = distinct (case, destination state, boundary index, mode, fault variant) whose "
         "child logged the injection at that boundary (dry runs are not counted).  resume clause: every prefix of an apply_to run x {KeyboardInterrupt at the k-th "
         "data_store.write, hard kill at every file-system boundary of the run} then re-run in append mode, judged by "
         "RecOK/ResumeOK of AtomicWriteResume.tla (each interrupted+re-run scenario is one distinct non-trivial case)"
@@ -300,7 +309,7 @@ def check(run: Run):
     run.assumptions += [
         "power-loss durability (fsync ordering, page cache) is not covered: a kill is os._exit between two Python-level calls, the kernel completes what was issued",
         "a kill during write()/close() is observed at the boundary before the call; partial flushes inside one C-level write are not enumerated",
-        "one injected OSError per run; an OSError injected into the cleanup call itself (rmtree) is allowed to leave the temporary directory",
+        "one faulty call site per run (failing once, or again whenever the same call on the same path is re-issued); an OSError injected into the cleanup call itself (rmtree) is allowed to leave the temporary directory",
         "nested directories inside rmtree are not boundaries (their audit events carry relative paths)",
         "new content = what an un-faulted write to an absent destination leaves (content correctness is C06/C20's subject); compressed files are compared by payload",
         "zip targets are not transcribed in AtomicWrite.tla (judged by outcome only, no trace validation)",
